@@ -113,8 +113,12 @@ TCPStream& TCPStream::operator=(const TCPStream& rhs) {
     fin_sent_ = rhs.fin_sent_;
     client_payload_ = rhs.client_payload_;
     server_payload_ = rhs.server_payload_;
-    client_frags_ = clone_fragments(rhs.client_frags_);
-    server_frags_ = clone_fragments(rhs.server_frags_);
+    fragments_type new_client_frags = clone_fragments(rhs.client_frags_);
+    fragments_type new_server_frags = clone_fragments(rhs.server_frags_);
+    free_fragments(client_frags_);
+    free_fragments(server_frags_);
+    client_frags_.swap(new_client_frags);
+    server_frags_.swap(new_server_frags);
     return* this;
 }
 
